@@ -10,7 +10,8 @@
        key (opindex) is the general _index call on that key.
    NOT proved (visible below as C04_full): the unobservability of the optimisations of the real
    compiler (peephole, tail calls, folding of nested literals at bytecode level); the rewrites R3 on
-   function ARGUMENTS and R4 on function bodies (they change closure bodies stored in environments). *)
+   arguments of jq-DEFINED functions and R4 on function bodies (they change closure bodies stored in
+   environments; R3 on arguments of native functions is proved). *)
 From Coq Require Import String.
 From Coq Require Import List ZArith NArith.
 From Verif Require Import common.Sexp sem.JV sem.Syntax sem.Natives sem.Sem sem.SemProofs sem.OptProofs gen.GenBuiltins.
@@ -56,6 +57,19 @@ Theorem C04_wrap_object : forall bs n rho key a v ps k, is_var_name key = false 
   eval_t bs (3 + n) rho (Term (TObject [ObjectKeyVal key None None (Some a)]) []) v ps k.
 Proof. exact wrap_object1. Qed.
 Print Assumptions C04_wrap_object.
+
+(* R3 on the arguments of native functions (incl. path, getpath, _modify): one and two arguments *)
+Theorem C04_wrap_native_arg1 : forall bs n rho name a v ps k,
+  is_var_name name = false -> lookup_fun rho name 1 = None -> lookup_builtin bs name 1 = None ->
+  call bs (7 + n) rho name [wrap a] v ps k = call bs (4 + n) rho name [a] v ps k.
+Proof. exact wrap_native_arg1. Qed.
+Print Assumptions C04_wrap_native_arg1.
+
+Theorem C04_wrap_native_arg2 : forall bs n rho name a b v ps k,
+  is_var_name name = false -> lookup_fun rho name 2 = None -> lookup_builtin bs name 2 = None ->
+  call bs (8 + n) rho name [wrap a; wrap b] v ps k = call bs (5 + n) rho name [a; b] v ps k.
+Proof. exact wrap_native_arg2. Qed.
+Print Assumptions C04_wrap_native_arg2.
 
 (* the folder model is sound: folded terms are constant generators of exactly one value *)
 Theorem C04_fold_sound : forall bs t c, term_index_key t = Some c ->
